@@ -166,7 +166,18 @@ type Dict struct {
 }
 
 // ExtractDict extracts an image dictionary from a PDF stream.
-func ExtractDict(c pdf.Cursor, obj pdf.Object, _ bool) (*Dict, error) {
+func ExtractDict(c pdf.Cursor, obj pdf.Object, isDirect bool) (*Dict, error) {
+	return extractDict(c, obj, isDirect, true)
+}
+
+// extractDictNoAlternates extracts an image which is itself an alternate
+// image: alternates of alternates are not allowed, and an /Alternates entry
+// found there is not looked at (let alone followed from image to image).
+func extractDictNoAlternates(c pdf.Cursor, obj pdf.Object, isDirect bool) (*Dict, error) {
+	return extractDict(c, obj, isDirect, false)
+}
+
+func extractDict(c pdf.Cursor, obj pdf.Object, _ bool, withAlternates bool) (*Dict, error) {
 	stream, err := c.Stream(obj)
 	if err != nil {
 		return nil, err
@@ -399,7 +410,9 @@ func ExtractDict(c pdf.Cursor, obj pdf.Object, _ bool) (*Dict, error) {
 
 	// extract alternates (Table 89); drop the whole list if it exceeds
 	// MaxAlternates rather than silently truncate
-	if alts, err := pdf.Optional(c.Array(dict["Alternates"])); err != nil {
+	if !withAlternates {
+		// (an alternate image: see extractDictNoAlternates)
+	} else if alts, err := pdf.Optional(c.Array(dict["Alternates"])); err != nil {
 		return nil, err
 	} else if len(alts) <= limits.MaxAlternates {
 		for i, altObj := range alts {
